@@ -743,7 +743,10 @@ Varable failures: {var_failed}
             self.NVARS = len(varlist)
 
         newdimlen = max(self.NVARS, 1)
-        if 'VAR' in self.dimensions:
+        if not update:
+            # a query: the file is left as it is
+            pass
+        elif 'VAR' in self.dimensions:
             if newdimlen != len(self.dimensions['VAR']):
                 try:
                     self.createDimension('VAR', newdimlen)
